@@ -6,6 +6,7 @@ package sx
 
 import (
 	"fmt"
+	"os"
 	"go/token"
 	"go/types"
 )
@@ -48,6 +49,9 @@ func asSymslice(i *interpreter, v value, et types.Type) *symslice {
 func (i *interpreter) fill(p *symslice, n value, src string, off value) {
 	o := p.obj
 	i.writeClock++
+	if os.Getenv("GOSMX_PROVDEBUG") != "" {
+		fmt.Fprintf(os.Stderr, "FILL obj%d off=%v n=%v src=%s srcoff=%v backing=%v\n", o.id, p.off, n, src, off, o.backing != nil)
+	}
 	if o.backing != nil {
 		// concrete backing: contents become opaque symbols lazily; we drop cells
 		// in range when n is concrete, else mark lost.
@@ -93,6 +97,12 @@ func (i *interpreter) prov(p *symslice) (string, value, bool) {
 		r := o.regions[k]
 		if i.pm.must(leV(r.start, p.off)) && i.pm.must(leV(addInt(p.off, p.n), addInt(r.start, r.n))) {
 			return r.src, addInt(r.srcOff, subInt(p.off, r.start)), true
+		}
+	}
+	if os.Getenv("GOSMX_PROVDEBUG") != "" {
+		fmt.Fprintf(os.Stderr, "PROV FAIL obj%d off=%v n=%v lost=%v regions=%d\n", o.id, p.off, p.n, o.lost, len(o.regions))
+		for _, r := range o.regions {
+			fmt.Fprintf(os.Stderr, "   region start=%v n=%v src=%s off=%v\n", r.start, r.n, r.src, r.srcOff)
 		}
 	}
 	return "", 0, false
